@@ -271,6 +271,7 @@ type FuncResult struct {
 	Assumptions []string
 	Callees     []string
 	Trusted     bool
+	Tags        []string // the function's own property tags
 	Covers      []*Obligation
 }
 
@@ -311,6 +312,9 @@ func (prog *Program) verifyFunc(tg target) (res *FuncResult) {
 	e.lit, e.litOrd = lit, tg.lit
 	e.altName = tg.altName
 	res = &FuncResult{Name: e.funcName()}
+	if c != nil {
+		res.Tags = c.Tags
+	}
 	if c != nil && c.Trusted {
 		res.Trusted = true
 		return res
